@@ -1,20 +1,17 @@
 /*UNIT
 {"props": ["C17", "C18"], "src": ["lib/hashtable.c"], "mode": "plain", "kind": "bounded",
- "bound": "8 buckets; key hashing to bucket 5 (anybucket: any); probed bucket holds <= 3 nodes (distinct keys of length 1..2, arbitrary bytes), <= 2 iterators parked per node, <= 2 global and <= 1 per-key notifiers; other buckets arbitrary (never accessed)",
- "unwind": 6, "unwindset": ["harness.0:25"], "functions": ["hashtable_get", "hashtable_lookup", "qb_hash_string", "hash_fnv"],
+ "bound": "8 buckets; key hashing to bucket 5; probed bucket holds <= 3 nodes (distinct keys of length 1..2, arbitrary bytes), <= 2 iterators parked per node, notifiers: none, or 2 global + 1 per key; other buckets arbitrary (never accessed)",
+ "unwind": 6, "unwindset": ["harness.0:9"], "spec": ["hashtable.spec"], "tags": ["split"], "cbmc_flags": ["--no-malloc-may-fail"], "functions": ["hashtable_get", "hashtable_count_get", "hashtable_lookup", "qb_hash_string", "hash_fnv"],
  "restrict_fp": ["hashtable_notify.function_pointer_call.1/verif_notify_cb", "hashtable_notify.function_pointer_call.2/verif_notify_cb",
                  "hashtable_notify.function_pointer_call.3/verif_notify_cb"],
  "stubs": ["map notifier callback (records event, key, old and new value per notifier)", "malloc/calloc (may fail)"],
  "expect_classes": ["assertion"], "timeout": 300,
- "variants": [{"vname": "noiter", "defines": ["-DVERIF_STATE_EXTRA(p,i)=((i)==0)"]},
-              {"vname": "parked", "defines": ["-DVERIF_STATE_EXTRA(p,i)=((p)==1)", "-DV_PARKED"]},
-              {"vname": "removed", "defines": ["-DV_REMOVED"]},
-              {"vname": "anybucket", "tier": "thorough", "defines": ["-DHT_ANYBUCKET", "-DVERIF_STATE_EXTRA(p,i)=((i)==0)"]}]}
+ "variants": [{"vname": "live", "defines": ["-DVERIF_STATE_EXTRA(p,i)=((p)==1)"]},
+              {"vname": "removed", "defines": ["-DV_REMOVED", "-DHT_SHAPE_FROM=2"]}]}
 */
 /* hashtable_get(k) on every well-formed bounded state and every key: returns the value of the latest put
  * of k if k is present, nothing otherwise; changes nothing; calls no notifier.
- *  noiter : no iterator is open                                  (C17)
- *  parked : iterators parked on present nodes                    (C18)
+ *  live   : all nodes present, 0..2 iterators parked on each     (C17, C18)
  *  removed: k was removed while an iterator is parked on its node: get must report nothing (defect #15) */
 #include "ht_common.h"
 
@@ -28,9 +25,6 @@ static void verif_case(unsigned nodes, unsigned gnot, unsigned nnot)
 #ifdef V_REMOVED
 	ASSUME(gi >= 0 && HG[gi].present == 0);
 #endif
-#ifdef V_PARKED
-	ASSUME(gi < 0 || HG[gi].iters > 0 || HG_n > 1);
-#endif
 
 	void *r = hashtable_get(&t->map, k);
 
@@ -38,7 +32,7 @@ static void verif_case(unsigned nodes, unsigned gnot, unsigned nnot)
 #ifndef V_REMOVED
 		COVER(HG_n == 3 && gi == 2);
 #endif
-#ifdef V_PARKED
+#ifndef V_REMOVED
 		COVER(HG[gi].iters == 2);
 #endif
 		POST(r == HG[gi].value, "get returns the value of the latest put for that key");
@@ -52,6 +46,7 @@ static void verif_case(unsigned nodes, unsigned gnot, unsigned nnot)
 		POST(r == NULL, "get returns nothing for a key that is not present");
 	}
 	POST(verif_not_total == 0, "get calls no notifier");
+	POST(hashtable_count_get(&t->map) == HG_other + ht_ghost_present(), "the count call reports the number of keys present");
 	ht_check_state(t);
 }
 
@@ -59,7 +54,7 @@ void harness(void)
 {
 	VERIF_ND(uint8_t, nd_shape);
 	unsigned s;
-	for (s = 0; s < HT_SHAPES; s++) {
+	for (s = HT_SHAPE_FROM; s < HT_SHAPE_TO; s++) {
 		if (nd_shape == s) {
 			verif_case(HT_SHAPE_NODES(s), HT_SHAPE_GNOT(s), HT_SHAPE_NNOT(s));
 		}
